@@ -174,6 +174,8 @@ type Process struct {
 	flowWaitGroup      sync.WaitGroup
 	complete           sync.RWMutex
 	monitorOnce        sync.Once
+	// monitored is closed once the completion monitor exists (and holds the completion lock)
+	monitored chan struct{}
 	eventConsumersLock sync.RWMutex
 	eventConsumers     []event.IConsumer
 	subTracer          tracing.ITracer
@@ -213,6 +215,7 @@ func NewProcess(processElem *schema.Process, definitions *schema.Definitions, op
 		Options:         options,
 		element:         processElem,
 		flowNodeMapping: NewLockedFlowNodeMapping(),
+		monitored:       make(chan struct{}),
 	}
 	idGenerator := options.idGenerator
 
@@ -613,6 +616,8 @@ func (p *Process) StartWith(ctx context.Context, element schema.FlowNodeInterfac
 		p.monitorOnce.Do(func() {
 			sender := p.subTracer.RegisterSender()
 			go p.ceaseFlowMonitor(p.subTracer)(ctx, sender)
+			// from here on the completion lock is held until the instance is complete
+			close(p.monitored)
 		})
 		verifhook.Point("process.startwith.after_monitor")
 
@@ -743,6 +748,13 @@ func (p *Process) ceaseFlowMonitor(tracer tracing.ITracer) func(ctx context.Cont
 func (p *Process) WaitUntilComplete(ctx context.Context) (complete bool) {
 	signal := make(chan bool, 1)
 	go func() {
+		// an instance that has not been started is not complete: the completion lock means
+		// something only once the monitor holds it
+		select {
+		case <-p.monitored:
+		case <-ctx.Done():
+			return
+		}
 		p.complete.Lock()
 		defer p.complete.Unlock()
 		verifhook.Point("process.wait.locked")
